@@ -123,6 +123,43 @@ example :
     = (.panic "injected destructor panic", [(0, [(0, 11), (1, 21)]), (1, [])], .e (.bool false), .opt none,
        .e (.ent ⟨1, 2⟩)) := by decide +kernel
 
+/-- **An insertion after (or while unwinding from) a destructor panic is kept.** In every storage of every
+    world a faulted operation leaves behind, `Storage::insert` of a live handle returns normally, destroys
+    nothing but zero values (a replaced default), leaves the mask bit set and the value readable, and changes
+    no other entity's entry: an insertion is never rolled back with its bit left behind, wherever it runs
+    (tied to the code by the `ins` lines after a fault and by the `uins` lines — the same call made from a scope
+    guard's destructor while the panic unwinds — of the world harness). -/
+theorem insertion_after_fault_is_kept (fuel : Nat) (X : Nat → Prop) (w : World) (h : WInvX X w)
+    (op : WOp) (n : Nat) (implD : List Int) (k : Nat) (ms : Masked)
+    (hk : (stepFault fuel w op n implD).1.store? k = some ms)
+    (a : Alloc) (e : Entity) (v : Int) (hv : ms.inner.valOk v) (ha : a.isAlive e = true) :
+    ∃ r, ms.insert a e v = .ok r ∧ (∀ x ∈ r.destroyed, x = 0) ∧ r.st.mask.mem e.id = true ∧
+      r.st.get a e = .ok (some v) ∧
+      (∀ e' : Entity, e'.id ≠ e.id → r.st.get a e' = ms.get a e') := by
+  obtain ⟨m, hm⟩ := storages_good_after_fault fuel X w h op n implD k ms hk
+  obtain ⟨r, h1, _, h3, h4⟩ := C04.insert_refines hm a e v hv
+  simp only [ha, if_true] at h3 h4
+  refine ⟨r, h1, h4, ?_, ?_, ?_⟩
+  · rw [(C04.mask_refines h3).1]; simp
+  · rw [C04.get_refines h3, ha]; simp
+  · intro e' hne
+    rw [C04.get_refines h3, C04.get_refines hm]
+    simp [upd_apply, hne]
+
+/-- The world a batch deletion interrupted at its second destructor call leaves behind (third entity alive,
+    without components). -/
+def afterFault : World :=
+  (World.stepFault 100
+    (([.reg 1 0, .reg 0 0, .createWith false false [(1, 10), (0, 11)],
+       .createWith false false [(1, 20), (0, 21)], .createWith false false []] : List WOp).foldl
+      (fun w op => (World.step 100 w op).1) {}) (.ent (.delBatch [0, 1])) 1 []).1
+
+/-- Non-vacuity: inserting for the surviving entity into the storage whose purge was cut short. -/
+example :
+    ((World.step 100 afterFault (.ins 1 2 77)).2, World.dump (World.step 100 afterFault (.ins 1 2 77)).1,
+      (World.step 100 (World.step 100 afterFault (.ins 1 2 77)).1 (.get 1 2)).2)
+    = (.ins .inserted, [(0, [(0, 11), (1, 21)]), (1, [(2, 77)])], .opt (some 77)) := by decide +kernel
+
 /-- `ChangeSet::clear` interrupted by a destructor panic (model `ChangeSet.clearFault`, tied to the code by the
     `cs_clear_fault` lines of the changeset harness): whatever the position of the panicking destructor, every
     accumulated amount is destroyed exactly once (`rest` is a permutation of the set's indices), the set reports
